@@ -273,6 +273,16 @@ def run(ctx, escalated=False):
             import shutil
             shutil.rmtree(os.path.join(ctx.scratch, "dv"), ignore_errors=True)
     S.install()
+    # a long dry run: 1100 independent steps let through one at a time (-t 1), i.e. 1100 passes of the conductor
+    # loop; every one of them is generated, none is submitted (monitors only, see execprop.wide_cases)
+    n_deep = 1100
+    deep = {"n": n_deep, "edges": [[0, i] for i in range(1, n_deep + 1)], "sched": [1] * n_deep,
+            "restart": [0] * n_deep, "rlimit": 1, "throttle": 1, "attempts": 1, "dry": 1, "subs": []}
+    c = execprop.run_one(ctx, "C17", deep, ops=[{"op": "poll", "code": "OK", "reports": []}] * (n_deep + 2))
+    c.lines, c.impl_out = [], []
+    c.data = {"kind": "deep-dry-run", "scenario": dict(deep, edges="0>i for every i"), "ops": "%d polls" % (n_deep + 2)}
+    extra.append(c)
+    ctx.count("deep-dry-run")
     cases = cases + extra
     diffs = compare([c for c in cases if c.lines])
     account(ctx, extra)
